@@ -17,6 +17,33 @@ CHECKS = {
              "classes listed in known_findings.txt are excluded by construction and counted"),
 }
 
+CHECKS["C02"] = dict(
+    level="exploration", design="DESIGN.md §4 C02, appendix A",
+    technique="property-based differential testing against independent reference encoders (DER, canonical UPER, canonical OER) over Hypothesis-generated modules plus a systematic boundary catalogue",
+    text="Every generated value is encoded by the library in DER, UPER and OER and compared byte for byte with reference "
+         "encoders written from X.690/X.691/X.696 that share nothing with asn1c, so symmetric encoder/decoder errors become "
+         "visible.  The catalogue walks integer width boundaries, tag number boundaries, SIZE/FROM boundaries, 16K/64K "
+         "fragmentation, >127 enumerations and >63 extension additions systematically; random modules compose features.",
+    note="the reference encoders are the trusted base (self-tested against hand-derived vectors in vf/ref_selftest.py); "
+         "constructs they refuse to judge are counted as ref-excluded, known findings are excluded by construction and counted")
+CHECKS["C03"] = dict(
+    level="exploration", design="DESIGN.md §4 C03",
+    technique="property-based testing with an encoding-variant generator (decision lists drawn and shrunk by Hypothesis) over reference BER/PER/OER encoders and XER layout variants; oracle: decode gives RC_OK, full consumption and the reference DER",
+    text="For each generated value a family of alternative valid encodings is produced (indefinite/long/padded lengths, "
+         "constructed and nested strings, permuted SET/SET OF, DEFAULT present, unknown extension additions, REAL forms, "
+         "BASIC-PER/BASIC-OER options, XER white space/comments/empty-element forms); the library must accept each and "
+         "yield the same value.  Decision lists shrink to the single offending choice.",
+    note="only decisions the standards allow are generated; XER element naming is taken from the library's own "
+         "CANONICAL-XER output (layout only is varied); sample of an infinite family")
+CHECKS["C05"] = dict(
+    level="exploration", design="DESIGN.md §4 C05",
+    technique="property-based differential testing of restartable decoding: exhaustive 2-chunk split enumeration plus one-byte feeding plus Hypothesis-drawn k-chunk schedules, each compared with one-shot decoding; prefix => RC_WMORE oracle",
+    text="For generated values in DER, BER variants (incl. indefinite lengths), OER, BASIC- and CANONICAL-XER the driver "
+         "decodes one-shot and then with EVERY 2-chunk split point (exhaustive up to 1500 octets, sampled beyond), one byte "
+         "at a time, and with a drawn schedule, following the manual's restart protocol; rc, total consumed and the DER of "
+         "the result must be identical, and every proper prefix must give RC_WMORE with consumed <= prefix.",
+    note="PER excluded (documented as not restartable); split enumeration is exhaustive per encoding, encodings are a sample")
+
 NOT_YET = {
 }
 
